@@ -102,4 +102,16 @@ CLAIMS = {
         "note": "trusts refmodel::sgr and the third-party libraries' own renderers; the expressibility table is an assumption taken from their public APIs",
         "technique": "runtime monitoring: round trip through the target library's renderer + reference SGR interpreter, exhaustive factorised enumeration",
     },
+    "C20": {
+        "text": "The parser is really built four times (no features, core, core+utf8, utf8) and each build is monitored against the reference machine on the same seeded 7-bit streams and on all oversize-OSC shapes; cross-build identity is checked through a hash of the event logs of the streams that fit the fixed buffer.",
+        "design_ref": "7 C20",
+        "note": "trusts refmodel::vt with the OSC cap modelled as 'first 1024 payload bytes, later bytes and separators dropped'",
+        "technique": "runtime monitoring: one monitor binary per feature configuration + differential reference-model oracle",
+    },
+    "C08": {
+        "text": "Seeded operation sequences are applied in lock-step to every constructor / choice of AutoStream, to StripStream and to the bare writer, over four writer kinds (in-memory, borrowed, boxed dyn with injected short counts and errors, file); results of every call, reported mode and recovered bytes are compared.",
+        "design_ref": "7 C08",
+        "note": "metamorphic oracle (Never == StripStream, AlwaysAnsi/Always == identity); Windows-only Wincon arm is not reachable on this platform",
+        "technique": "runtime monitoring: lock-step differential execution of operation histories against reference streams",
+    },
 }
